@@ -29,14 +29,18 @@ fn main() {
     let out = get("out", "/verif/.work/run");
     let profile = get("profile", "ALL");
     sut::quiet_panics();
+    std::fs::create_dir_all(&out).ok();
+    let trace = || std::fs::File::create(format!("{}/trace.txt", out)).ok();
     match cmd.as_str() {
         "seq" => {
             let mut r = seq::Runner::new();
+            r.trace = trace();
             r.generate(&profile, seed, count);
             r.write(&out, "seq", &profile, seed);
         }
         "codec" | "conn" => {
             let mut r = seq::Runner::new();
+            r.trace = trace();
             let st = stream::run(&mut r, &cmd, &profile, seed, count, get("tier", "quick") == "thorough");
             let kinds: Vec<String> = st.kinds.iter().map(|(k, v)| format!("\"{}\":{}", k, v)).collect();
             let samples: Vec<String> = st.samples.iter().map(|s| format!("\"{}\"", s.replace('\\', "/").replace('"', "'"))).collect();
@@ -44,8 +48,17 @@ fn main() {
             r.nontrivial = st.distinct.len() as u64;
             r.write(&out, &cmd, &profile, seed);
         }
+        "policy" => {
+            let mut r = seq::Runner::new();
+            r.trace = trace();
+            r.generate_policy(&profile, seed, count);
+            let dh: Vec<String> = r.drift_hist.iter().map(|(k, v)| format!("\"{}\":{}", k, v)).collect();
+            r.extra = format!(",\"evictions\":{},\"drift_classes\":{{{}}}", r.evictions, dh.join(","));
+            r.write(&out, "policy", &profile, seed);
+        }
         "grid" => {
             let mut r = seq::Runner::new();
+            r.trace = trace();
             let st = stream::run_grid(&mut r, seed, count);
             let samples: Vec<String> = st.samples.iter().map(|s| format!("\"{}\"", s)).collect();
             r.extra = format!(",\"streams\":{},\"cases\":{},\"distinct_streams\":{},\"stream_samples\":[{}]", st.streams, st.cases, st.distinct.len(), samples.join(","));
@@ -56,6 +69,7 @@ fn main() {
             // re-run literal op lines (a replay file's program, or a corpus entry) on the real code
             let ops = std::fs::read_to_string(get("ops", "")).expect("ops file");
             let mut r = seq::Runner::new();
+            r.trace = trace();
             for l in ops.lines() {
                 if !l.trim().is_empty() {
                     r.exec(l.trim());
